@@ -41,7 +41,7 @@ CFG = {
     theorems=[P+"C07", P+"C07_empty_local", P+"C07_histories"],
     text="Theorems: under the span condition every peer entry the local tree lacks or holds with another digest lies in a returned range (soundness of every consistent mark via Merkle injectivity + contiguity of sub-pages; the whole peer span is marked inconsistent at the first iteration; reduce keeps bad minus good); an empty replica obtains the whole span.",
     assumptions=[A_TOTAL, A_LVL, A_CF, A_MODEL]),
- "C08": dict(streams=S("dsmall","drand","tsmall","tdeep","dwide","tbig","twide"), level="proof",
+ "C08": dict(streams=S("dsmall","drand","tsmall","tdeep","dwide","tbig","twide","tclone"), level="proof",
     theorems=[P+"C08", P+"C08_histories", P+"C08_empty_peer"],
     text="Theorems: hashed trees with equal content diff to nothing in both directions, for any pair of histories reaching that content; a diff against an empty peer is empty for any local list.",
     assumptions=[A_TOTAL, A_LVL, A_MODEL]),
@@ -53,7 +53,7 @@ CFG = {
     theorems=[P+"C10", P+"C10_frame"],
     text="Theorem: after any history the content is the key-sorted last-write-wins map (each key once, latest value digest); an upsert leaves every other key's entry untouched.",
     assumptions=[A_TOTAL, A_LVL, A_MODEL]),
- "C11": dict(streams=S("tsmall","tmid","trand","twide","tdeep","tkeylen","tbig","tcfg","tpages"), level="proof",
+ "C11": dict(streams=S("tsmall","tmid","trand","twide","tdeep","tkeylen","tbig","tcfg","tpages","tclone"), level="proof",
     theorems=[P+"C11_preorder", P+"C11_once", P+"C11_entry", P+"C11_first", P+"C11_nested", P+"C11_siblings", P+"C11_histories"],
     text="Theorems (every reachable hashed tree): the serialisation succeeds and is the pre-order list of pages, each exactly once, each as (first key, last key of its subtree, its digest); first entry spans the tree with the root hash; entries nest inside every page they are listed under; sibling spans are disjoint and ascending; empty tree gives the empty list. Every serialisation produced in the streams is compared with the model's and with an independent reference implementation.",
     assumptions=[A_TOTAL, A_LVL, A_MODEL]),
@@ -78,8 +78,8 @@ CFG = {
     text="PARTIAL. page_range_snapshot.rs is modelled (Model/Snapshot.lean: OwnedPageRange with the assertion of new, PageRangeSnapshot, the four conversions, iter() re-building every range through PageRange::new, Clone/clone_from/PartialEq, and a tree that keeps a snapshot while it is written to). Theorems: rebuilding ranges from accessor values never panics and yields equal ranges; a snapshot iterates to exactly the borrowed ranges; owned ranges built through new() equal the From conversion; both collection routes agree; diff is the same with rebuilt ranges or snapshots in either argument position; clone / clone_from into any existing snapshot yield the source; and (C16_snapshot_stable) a snapshot taken from a tree in ANY reachable state keeps iterating to the page ranges the tree had at that moment under EVERY continuation of upserts, none of which panics. Not expressible in a functional model: that the Rust snapshot shares no memory with the tree (ownership / aliasing) - decided by the harness with real PageRangeSnapshot objects kept across later upserts, compared with the earlier serialisation and used in diffs, plus == between snapshots built through four routes and clone_from both ways.",
     assumptions=[A_TOTAL, A_LVL, A_MODEL, "aliasing between snapshot and tree (ownership) is not expressible in the functional model"]),
  "C17": dict(streams=S("vsmall","tsmall","tmid","trand","twide","tdeep","tkeylen","tbig"), level="proof",
-    theorems=[P+"C17_iter", P+"C17_stop", P+"C17_stop_prefix", P+"C17_protocol_page", P+"C17_protocol_node", P+"C17_protocol"],
-    text="Theorems (every tree, every visitor, every stop index): the node iterator yields exactly the visit_node sequence; a visitor sees exactly the full callback sequence cut after the first false; the nesting protocol is the (6-line) definition of the trace, tied to the code by comparing every callback sequence incl. early stops, and checked independently by a grammar parser on the implementation side.",
+    theorems=[P+"C17_iter", P+"C17_stop", P+"C17_stop_prefix", P+"C17_protocol_page", P+"C17_protocol_node", P+"C17_protocol", P+"C17_default_visitor"],
+    text="Theorems (every tree, every visitor, every stop index): the node iterator yields exactly the visit_node sequence; a visitor sees exactly the full callback sequence cut after the first false; a visitor implementing only visit_node (the trait's defaults elsewhere) is never stopped and sees exactly the in-order nodes; the nesting protocol is the (6-line) definition of the trace, tied to the code by comparing every callback sequence incl. early stops, and checked independently by a grammar parser on the implementation side.",
     assumptions=[A_MODEL]),
  "C18": dict(streams=[dict(name="tcfg", profiles=["debug","release"], features=["","mst_default","mst_all"]), dict(name="tclone"),
       # the feature-gated call sites (tracing macros in diff.rs / tree.rs / page.rs, Display impls) sit on the upsert, hash and diff paths:
